@@ -64,6 +64,10 @@ enum Decision {
     ReadThenClose,
     ResetMidBody,
     Stall,
+    /// the response starts (status line / HEADERS with 200) and is then aborted before it is complete: for gRPC the
+    /// stream is reset before the trailers that carry grpc-status; for HTTP/1.1 the connection closes after the request
+    /// was read (same as `ReadThenClose`: a 200 status line alone would be a legitimate acknowledgement there)
+    ResetMidResponse,
 }
 
 impl Decision {
@@ -76,10 +80,14 @@ impl Decision {
             Decision::ReadThenClose => "read_then_close",
             Decision::ResetMidBody => "reset_mid_body",
             Decision::Stall => "stall_until_client_timeout",
+            Decision::ResetMidResponse => "reset_mid_response",
         }
     }
     fn transport_level(&self) -> bool {
-        matches!(self, Decision::CloseBeforeRead | Decision::ReadThenClose | Decision::ResetMidBody | Decision::Stall)
+        matches!(
+            self,
+            Decision::CloseBeforeRead | Decision::ReadThenClose | Decision::ResetMidBody | Decision::Stall | Decision::ResetMidResponse
+        )
     }
 }
 
@@ -108,6 +116,8 @@ struct Collector {
     trace: Mutex<Vec<String>>,
     fired: Mutex<BTreeMap<&'static str, u64>>,
     max_chunk: usize,
+    /// overflow mode: the first request is held until the client gives up
+    stall_first: std::sync::atomic::AtomicBool,
 }
 
 impl Collector {
@@ -117,6 +127,10 @@ impl Collector {
     }
 
     fn decide(&self, signal: Signal) -> Decision {
+        if self.stall_first.swap(false, Ordering::SeqCst) {
+            *self.fired.lock().unwrap().entry("stall_until_client_timeout").or_insert(0) += 1;
+            return Decision::Stall;
+        }
         let mut left = self.faults_left.lock().unwrap();
         let mut cons = self.consecutive_failures.lock().unwrap();
         let c = cons.entry(signal).or_insert(0);
@@ -125,7 +139,7 @@ impl Collector {
             *c = 0;
             return Decision::Ack;
         }
-        let pick = self.sched.lock().choices.weighted(&[8, 2, 3, 1, 2, 2, 1]);
+        let pick = self.sched.lock().choices.weighted(&[8, 2, 3, 1, 2, 2, 1, 1]);
         let d = match pick {
             0 => Decision::Ack,
             1 => {
@@ -139,7 +153,8 @@ impl Collector {
             3 => Decision::CloseBeforeRead,
             4 => Decision::ReadThenClose,
             5 => Decision::ResetMidBody,
-            _ => Decision::Stall,
+            6 => Decision::Stall,
+            _ => Decision::ResetMidResponse,
         };
         if !matches!(d, Decision::Ack | Decision::SlowAck(_)) {
             *left -= 1;
@@ -258,7 +273,7 @@ async fn http1_conn(mut stream: SimStream, col: Arc<Collector>, host: HostCfg, c
         entry.markers = find_markers(&plain);
         entry.body_complete = true;
         match decision {
-            Decision::ReadThenClose => {
+            Decision::ReadThenClose | Decision::ResetMidResponse => {
                 col.log.lock().unwrap().push(entry);
                 return;
             }
@@ -464,6 +479,18 @@ async fn grpc_stream(
             if with_message {
                 // an (empty) ExportServiceResponse message: 5-byte gRPC frame header
                 let _ = send.send_data(bytes::Bytes::from_static(&[0, 0, 0, 0, 0]), false);
+            }
+            if decision == Decision::ResetMidResponse {
+                // the server dies between the response headers and the trailers: no grpc-status ever arrives
+                // (the pause lets the connection task write the HEADERS frame out first; a reset issued at once
+                // would replace it and look like an ordinary failed request)
+                let pause = *col.sched.lock().choices.pick(&[1u64, 20, 500]);
+                sim_sleep(pause).await;
+                send.send_reset(h2::Reason::INTERNAL_ERROR);
+                entry.acked = false;
+                entry.done_at = Some(col.sched.now());
+                col.log.lock().unwrap().push(entry);
+                return;
             }
             let mut trailers = http::HeaderMap::new();
             trailers.insert("grpc-status", http::HeaderValue::from_str(&grpc_status.to_string()).unwrap());
@@ -702,6 +729,8 @@ enum Step {
     Emit(usize),
     Flush(u64),
     Sleep(u64),
+    /// emit events `[from, to)` back to back, then sample the channel's metrics
+    Burst(usize, usize),
 }
 
 impl Engine for OtlpSim {
@@ -736,7 +765,16 @@ impl Engine for OtlpSim {
     fn run(&self, ch: &mut Choices, ctx: &RunCtx) -> Outcome {
         let c14 = self.focus == "C14";
         // --- configuration
-        let subset: u32 = if c14 { ch.choose(8) } else { 1 + ch.choose(7) };
+        // overflow mode (rare, expensive): one signal, its first request stalled until the client's timeout, and a burst
+        // of more events than the channel's 10 000-item capacity behind it
+        let overflow = !c14 && ch.chance(1, 120);
+        let subset: u32 = if overflow {
+            1
+        } else if c14 {
+            ch.choose(8)
+        } else {
+            1 + ch.choose(7)
+        };
         let mut signals = BTreeSet::new();
         for (bit, s) in [(1, Signal::Logs), (2, Signal::Traces), (4, Signal::Metrics)] {
             if subset & bit != 0 {
@@ -760,15 +798,34 @@ impl Engine for OtlpSim {
             });
         }
         let fault_budget = match ch.weighted(&[4, 4, 2]) {
+            _ if overflow => 0,
             0 => 0,
             1 => 1 + ch.choose(3),
             _ => 4 + ch.choose(6),
         };
         // (routing runs too: a batch that is split into several requests must still export every event exactly once)
-        let big = if c14 { ch.chance(1, 8) } else { ch.chance(1, 4) };
-        let n_events = if big { 3 + ch.choose(10) } else { 1 + ch.choose(if ctx.thorough { 40 } else { 16 }) } as usize;
+        let big = !overflow && if c14 { ch.chance(1, 8) } else { ch.chance(1, 4) };
+        let n_events = if overflow {
+            10_002 + ch.choose(40)
+        } else if big {
+            3 + ch.choose(10)
+        } else {
+            1 + ch.choose(if ctx.thorough { 40 } else { 16 })
+        } as usize;
         let mut events = Vec::new();
         for i in 0..n_events {
+            if overflow {
+                events.push(Ev {
+                    marker: format!("MK{:06}KM", i + 1),
+                    kind: Kind::None,
+                    ext: Ext::Point,
+                    mval: MVal::Number,
+                    agg: Some("count"),
+                    payload: 0,
+                    noisy: false,
+                });
+                continue;
+            }
             let kind = if c14 {
                 *ch.pick(&[Kind::None, Kind::Span, Kind::Metric, Kind::Unknown])
             } else {
@@ -815,7 +872,12 @@ impl Engine for OtlpSim {
         }
         // client program
         let mut steps = Vec::new();
-        for i in 0..n_events {
+        if overflow {
+            steps.push(Step::Emit(0));
+            steps.push(Step::Sleep(40));
+            steps.push(Step::Burst(1, n_events));
+        }
+        for i in 0..if overflow { 0 } else { n_events } {
             steps.push(Step::Emit(i));
             match ch.weighted(&[12, 2, 2]) {
                 0 => {}
@@ -823,7 +885,7 @@ impl Engine for OtlpSim {
                 _ => steps.push(Step::Flush(*ch.pick(&[0u64, 50, 2000, 120_000]))),
             }
         }
-        let final_flush = !ch.chance(1, 4);
+        let final_flush = overflow || !ch.chance(1, 4);
         let custom_headers = ch.chance(1, 3);
         // the per-signal convenience constructors (`logs_http_proto(url)` ...) instead of a transport builder
         let short_forms = ch.chance(1, 4);
@@ -851,6 +913,7 @@ impl Engine for OtlpSim {
             trace: Mutex::new(Vec::new()),
             fired: Mutex::new(BTreeMap::new()),
             max_chunk,
+            stall_first: std::sync::atomic::AtomicBool::new(overflow),
         });
         {
             let col2 = col.clone();
@@ -860,7 +923,7 @@ impl Engine for OtlpSim {
         }
         let prev = simthread::enter(&sched);
         sched.log(format!(
-            "config: signals={signals:?} hosts={:?} dead_host={dead_host:?} fault_budget={fault_budget} events={n_events} big={big} final_flush={final_flush} max_chunk={max_chunk}",
+            "config: signals={signals:?} hosts={:?} dead_host={dead_host:?} fault_budget={fault_budget} events={n_events} big={big} overflow={overflow} final_flush={final_flush} max_chunk={max_chunk}",
             hosts.iter().map(|h| format!("{:?}/{:?}/gzip={}", h.signal, h.transport, h.gzip)).collect::<Vec<_>>()
         ));
 
@@ -909,6 +972,8 @@ impl Engine for OtlpSim {
             flushes: Vec<(usize, Duration, Duration, u64, bool)>, // (#events emitted before the call, called at, returned at, timeout, result)
             discarded: Option<u64>,
             dropped_at: Option<Duration>,
+            /// after the burst: (otlp_logs_queue_length, otlp_logs_queue_full_truncated)
+            after_burst: Option<(Option<u64>, Option<u64>)>,
         }
         let clog = Arc::new(Mutex::new(ClientLog::default()));
         let (client_tid, client_handle) = {
@@ -935,6 +1000,29 @@ impl Engine for OtlpSim {
                                     sc.log(format!("emitted {} ({:?}/{:?}/{:?}/agg {:?}, {} payload bytes{})", events[i].marker, events[i].kind, events[i].ext, events[i].mval, events[i].agg, events[i].payload, if events[i].noisy { ", incompressible" } else { "" }));
                                 }
                                 Step::Sleep(ms) => sc.sleep(Duration::from_millis(ms)),
+                                Step::Burst(from, to) => {
+                                    sc.set_nonblocking(Some("Otlp::emit"));
+                                    for i in from..to {
+                                        emit_one(&otlp, &events[i], i as u64);
+                                        emitted += 1;
+                                        clog.lock().unwrap().emitted.push((i, sc.now()));
+                                    }
+                                    sc.set_nonblocking(None);
+                                    use emit::metric::Source as _;
+                                    let got: Mutex<(Option<u64>, Option<u64>)> = Mutex::new((None, None));
+                                    otlp.metric_source().sample_metrics(emit::metric::sampler::from_fn(|m| {
+                                        let v = m.value().to_string().parse::<u64>().ok();
+                                        if m.name() == "otlp_logs_queue_length" {
+                                            got.lock().unwrap().0 = v;
+                                        }
+                                        if m.name() == "otlp_logs_queue_full_truncated" {
+                                            got.lock().unwrap().1 = v;
+                                        }
+                                    }));
+                                    let g = *got.lock().unwrap();
+                                    sc.log(format!("burst of {} events emitted; otlp_logs_queue_length={:?} otlp_logs_queue_full_truncated={:?}", to - from, g.0, g.1));
+                                    clog.lock().unwrap().after_burst = Some(g);
+                                }
                                 Step::Flush(ms) => {
                                     let t0 = sc.now();
                                     let r = simthread::with_deadline(&sc, Duration::from_millis(ms), || otlp.blocking_flush(Duration::from_millis(ms)));
@@ -1073,7 +1161,46 @@ impl Engine for OtlpSim {
 
             // C12 (1) / (5): delivered once flushed (or drained on drop), exactly once when nothing failed
             let settled = last_flush_ok || !final_flush;
+            if overflow {
+                // C09 through the OTLP emitter's own channel type: bounded, newest kept, every drop counted
+                out.probe("channel_overflow_mode");
+                if let Some((ql, tr)) = cl.after_burst {
+                    let (ql, tr) = (ql.unwrap_or(u64::MAX), tr.unwrap_or(u64::MAX));
+                    if ql > 10_000 {
+                        out.violate("C09", "capacity_exceeded", format!("the OTLP logs channel holds {ql} events, capacity is 10 000"));
+                    }
+                    if tr > 0 {
+                        out.probe("channel_overflow_truncated");
+                    }
+                    if last_flush_ok {
+                        let all: Vec<&str> = emitted.iter().map(|e| e.marker.as_str()).collect();
+                        let missing: Vec<&&str> = all.iter().filter(|m| !acked_in.contains_key(**m)).collect();
+                        let n = all.len() as u64;
+                        let queue_start = n.saturating_sub(ql) as usize;
+                        for m in &missing {
+                            let idx = all.iter().position(|x| *x == **m).unwrap();
+                            if idx >= queue_start {
+                                out.violate(
+                                    "C09",
+                                    "queued_event_lost",
+                                    format!("event {m} was among the {ql} events pending after the burst but was never acknowledged ({tr} truncations counted)"),
+                                );
+                            }
+                        }
+                        if tr == 0 && !missing.is_empty() {
+                            out.violate("C09", "uncounted_drop", format!("{} events are missing although otlp_logs_queue_full_truncated is 0", missing.len()));
+                        }
+                        if missing.len() as u64 > tr.saturating_mul(10_000) {
+                            out.violate("C09", "uncounted_drop", format!("{} events are missing, {tr} truncations of at most 10 000 were counted", missing.len()));
+                        }
+                    }
+                }
+            }
             for ev in &emitted {
+                if overflow {
+                    // events dropped by the overflow are legitimately missing; the rules above account for them
+                    break;
+                }
                 let Some(sig) = route(ev, &signals) else { continue };
                 if dead_host == Some(sig) {
                     continue;
@@ -1171,7 +1298,12 @@ impl Engine for OtlpSim {
                             format!("{sig:?}: request failed at {:?} ({:?}) and was re-sent at {:?}, before any back-off", a.at, a.decision, b.at),
                         );
                     }
-                    if a.decision.transport_level() {
+                    // (an HTTP/2 stream reset leaves the connection itself healthy: re-using it is fine)
+                    let stream_only = a.decision == Decision::ResetMidResponse && a.path.starts_with("/opentelemetry");
+                    if stream_only {
+                        out.probe("retry_after_grpc_stream_reset_mid_response");
+                    }
+                    if a.decision.transport_level() && !stream_only {
                         out.probe("retry_after_transport_failure");
                         if a.conn == b.conn {
                             out.violate(
